@@ -44,6 +44,32 @@ theorem Tie_C15_observed_at_most_once (P : Params) (hidden : List String) (evs :
   rw [he.discs hv]
   exact disc_at_most_once P s he.reachable
 
+/-- **C01 on the observed trace** (text unchanged, nothing invented): in every accepted trace (writes visible) every written line
+    is the keep-alive probe or the unchanged text of a command some caller handed to put / get / raw earlier in the trace -/
+theorem Tie_C01_observed_texts (P : Params) (hidden : List String) (evs : List (Nat × Ev))
+    (hv : hidden.contains "write" = false) (h : (accept P hidden evs).accepted = true) :
+    ∀ w ∈ traceWrites evs, w.2 = probe ∨ w.2 ∈ traceCalls evs := by
+  obtain ⟨s, he⟩ := accept_sound P hidden evs h
+  intro w hw
+  rw [he.writes hv] at hw
+  simp only [wireTT, List.mem_map] at hw
+  obtain ⟨e, hew, rfl⟩ := hw
+  cases hid : e.2.2 with
+  | none => exact Or.inl (wire_non_user_is_probe P s he.reachable e hew hid)
+  | some i =>
+    right
+    have hmem : (i, e.2.1) ∈ wireCmds s.wire := by
+      simp only [wireCmds, List.mem_filterMap]
+      exact ⟨e, hew, by simp [hid]⟩
+    have hsub := fifo_sublist P s he.reachable
+    have : (i, e.2.1) ∈ submittedCmds s :=
+      hsub.subset (List.mem_append_left _ (List.mem_append_left _ hmem))
+    simp only [submittedCmds, List.mem_map] at this
+    obtain ⟨e', he', heq⟩ := this
+    have := he.submInv.1 e' he'
+    simp only [Prod.mk.injEq] at heq
+    rw [← heq.2]; exact this
+
 /-! non-vacuity: the acceptor accepts the start of a real session (reader started, two probes 100 ms apart)
 and rejects the same trace with the second probe 50 ms early -/
 def P0 : Params := ⟨100000, 30000000, 2000000, 1000000, 0⟩
